@@ -8,7 +8,7 @@ Oracle : the tool terminates by itself with a result or a diagnostic.  Violation
 Every behavioural monitor (C01..C14) also runs on the ASan+UBSan build and routes crashes to its own verdict; this
 check adds structure-aware hostile input for the three main() functions and the interactive command loop.
 """
-import sys, os, argparse, json, re, shutil
+import sys, os, argparse, json, re, shutil, subprocess
 sys.path.insert(0, os.path.dirname(os.path.dirname(os.path.abspath(__file__))))
 from vf.common import *
 from vf import build as vbuild, proc
@@ -382,6 +382,103 @@ def memcheck_worker(job):
     return part.dump()
 
 
+# ---- coverage-guided stage (libFuzzer + ASan + UBSan on the library entry points, harness/vfuzz.cpp) -------------------
+FUZZ_TARGETS = ['value', 'tf', 'tx', 'script', 'spend']
+
+
+def fuzz_seed_corpus(rng, target, d, n):
+    """grammar-valid starting points, so that the mutations start inside the interesting part of the input space"""
+    os.makedirs(d, exist_ok=True)
+    out = []
+    for i in range(n):
+        try:
+            if target == 'value':
+                b = rng.choice([hostile_arg(rng), c07.render(rng, gen.gen_deep(rng, BASE, STANDARD, 6, [])) if hasattr(c07, 'render') else hostile_arg(rng)]).encode('latin1', 'replace')
+            elif target == 'tf':
+                b = ('%s %s' % (rng.choice(TF_NAMES), ' '.join(hostile_arg(rng) for _ in range(rng.choice([0, 1, 2, 3]))))).encode('latin1', 'replace')
+            elif target == 'tx':
+                sc = tx_pair(rng)
+                b = (rng.choice(['', '0.1:', '0.1,0.2:', '1,2,3:']) + rtx.ser_tx(rng.choice([sc['tx'], sc['fund']])).hex()).encode()
+            elif target == 'script':
+                sv = rng.choice([BASE, WITNESS_V0, TAPSCRIPT])
+                st = gen.rnd_stack(rng, sigs=True)[:4]
+                scr = gen.gen_deep(rng, sv, STANDARD, rng.choice([2, 6, 15]), st, sigops=True)
+                b = bytes([{BASE: 0, WITNESS_V0: 1, TAPSCRIPT: 2}[sv], 0, 0, rng.choice([0x80, 0xc0]), len(st)])
+                for it in st:
+                    it = it[:39]
+                    b += bytes([len(it)]) + it
+                b += scr
+            else:
+                sc = tx_pair(rng)
+                b = (rtx.ser_tx(sc['tx']).hex() + ' ' + rtx.ser_tx(sc['fund']).hex()).encode()
+        except Exception:
+            continue
+        if len(b) > 19000:
+            continue
+        with open(os.path.join(d, 's%04d' % i), 'wb') as fh:
+            fh.write(b)
+        out.append(b)
+    return len(out)
+
+
+def fuzz_dict(path):
+    toks = ['OP_' + n for n in OP] + TF_NAMES + ['[', ']', '(', ')', '0x', ',', ':', ' ', '-', '"', "'", '1111111111111111111114oLvT2', 'bc1', 'tb1', '2147483648', '-2147483648', '9223372036854775807']
+    with open(path, 'w') as fh:
+        for t in toks:
+            fh.write('"%s"\n' % ''.join(c if c.isalnum() or c in '_-[](),: ' else '\\x%02x' % ord(c) for c in t))
+
+
+def fuzz_worker(job):
+    bindir, target, idx, runs = job
+    rng = sub_rng(PROP, 'fuzz', target, idx)
+    part = Partial()
+    wd = scratch('c15f')
+    try:
+        corpus = os.path.join(wd, 'corpus')
+        art = os.path.join(wd, 'art')
+        os.makedirs(art)
+        nseed = fuzz_seed_corpus(rng, target, corpus, 60)
+        fuzz_dict(os.path.join(wd, 'dict'))
+        env = dict(os.environ, VFUZZ_TARGET=target, ASAN_OPTIONS='detect_leaks=0:abort_on_error=0:allocator_may_return_null=1:quarantine_size_mb=8:symbolize=1', UBSAN_OPTIONS='print_stacktrace=1:symbolize=1',
+                   ASAN_SYMBOLIZER_PATH='/usr/bin/llvm-symbolizer-14')
+        cmd = [os.path.join(bindir, 'vfuzz'), '-runs=%d' % runs, '-seed=%d' % (rng.randrange(1, 2 ** 31)), '-max_len=%d' % (4096 if target in ('value', 'tf', 'script') else 16384), '-timeout=120', '-rss_limit_mb=6000', '-malloc_limit_mb=3000',
+               '-artifact_prefix=' + art + '/', '-print_final_stats=1', '-dict=' + os.path.join(wd, 'dict'), '-verbosity=1', corpus]
+        try:
+            r = subprocess.run(cmd, env=env, cwd=wd, stdin=subprocess.DEVNULL, stdout=subprocess.DEVNULL, stderr=subprocess.PIPE, timeout=6 * 3600)
+            err = r.stderr.decode('latin1', 'replace')
+            rc = r.returncode
+        except subprocess.TimeoutExpired as e:
+            part.inconc('fuzz-wall-clock-watchdog:' + target)
+            return part.dump()
+        m = re.search(r'stat::number_of_executed_units:\s*(\d+)', err)
+        execs = int(m.group(1)) if m else 0
+        cov = [int(x) for x in re.findall(r'cov: (\d+)', err)]
+        ft = [int(x) for x in re.findall(r'ft: (\d+)', err)]
+        part.evaluations += execs
+        part.count('fuzz_execs', target, execs)
+        part.count('fuzz_edges_covered(sum over processes)', target, cov[-1] if cov else 0)
+        part.count('fuzz_processes', target)
+        part.sample(dict(fuzz_target=target, execs=execs, seed_inputs=nseed, edges_covered=cov[-1] if cov else 0, features=ft[-1] if ft else 0), limit=1)
+        arts = sorted(os.listdir(art))
+        if rc != 0 or arts:
+            data = b''
+            if arts:
+                with open(os.path.join(art, arts[0]), 'rb') as fh:
+                    data = fh.read()
+            if 'libFuzzer: timeout' in err:
+                key = 'fuzz:%s:hang' % target
+            elif 'libFuzzer: out-of-memory' in err:
+                key = 'fuzz:%s:out-of-memory' % target
+            else:
+                key = crash_key('fuzz-' + target, rc, err[-30000:])
+            part.violation(key, dict(fuzz_target=target, input_hex=data.hex()[:60000], input_text=data.decode('latin1')[:1500], log=err[-3500:]))
+        elif execs:
+            part.nontrivial.add(nt_hash('fuzz', target, idx, execs))
+    finally:
+        cleanup_scratch(wd)
+    return part.dump()
+
+
 def main():
     ap = argparse.ArgumentParser()
     ap.add_argument('--tier', default=os.environ.get('VERIF_TIER', 'quick'))
@@ -409,11 +506,16 @@ def main():
     plain = vbuild.build('plain')
     for r in parallel(memcheck_worker, [(plain, i, 10 if not th else 250) for i in range(16)]):
         rep.merge(r)
+    fz = vbuild.build('fuzz')
+    per = 3
+    runs = 15000 if not th else 1500000
+    for r in parallel(fuzz_worker, [(fz, t, i, runs) for t in FUZZ_TARGETS for i in range(per)]):
+        rep.merge(r)
     return rep.finish(
         rule='one process per case, ASan+UBSan builds of btcc / btcdeb / tap: hostile argument lists (empty strings, 1..70,000-character tokens, bracket and inline-function nesting, every transform on adversarial arguments, control characters), '
              'option values (--tx/--txin truncated, corrupted, swapped, out-of-range prevout indices and --select values, hostile witness shapes; malformed flag / pair / dataset / debug lists), stdin variants for the non-interactive modes '
              '(empty, 1023/1024/5000-character lines, binary), interactive command sequences (step/rewind/exec/tf/print incl. exec OP_CODESEPARATOR, exec at the end, unterminated quotes) over plain scripts and --tx/--txin spends, tap with hostile keys, '
-             'counts, indices, transactions and signatures; plus a valgrind-memcheck sample on the plain build. non-trivial = distinct (tool, argv, stdin, mode) that terminated by itself',
+             'counts, indices, transactions and signatures; plus a valgrind-memcheck sample on the plain build; plus coverage-guided mutation (libFuzzer, clang ASan+UBSan) of five library entry points - Value / Value::parse_args, fn_tf, parse_tx / Instance::parse_transaction, Instance script sessions with rewinds and exec, and --tx/--txin sessions - each started from grammar-valid seeds and an opcode/function-name dictionary (evaluations include these executions; see samples for executions and edges covered per target). non-trivial = distinct (tool, argv, stdin, mode) that terminated by itself',
         assumptions=['the millions of executions of C01..C14 run on the same sanitizer build and report crashes under their own property',
                      'exit() with a diagnostic from inside a REPL command counts as terminating by itself', 'memory leaks are outside the property (detect_leaks=0)'],
         min_events=500)
